@@ -1315,3 +1315,35 @@ package analysis
 //@   modifies nothing
 //@   ensures forall c string :: inStrs(result, c) <==> (inStrs(s.spec.Produces, c) || (exists p in dom(docPaths(s)) :: exists M string :: opAtM(docPaths(s)[p], M) != nil && inStrs(opAtM(docPaths(s)[p], M).Produces, c)))
 //@   ensures forall i in 0..len(result) :: forall j in 0..len(result) :: i != j ==> result[i] != result[j]
+
+// ---- security requirements and definitions (C14)
+
+//@ fun effSec(s *Spec, op *spec.Operation) []map[string][]string = if !isnil(op.Security) then op.Security else s.spec.Security
+//@ ofun hasReq(reqs []SecurityRequirement, n string) bool = exists j in 0..len(reqs) :: reqs[j].Name == n
+
+//@ func (s *Spec) SecurityRequirementsFor(operation)
+//@   requires s != nil && s.spec != nil && operation != nil
+//@   modifies nothing
+//@   ensures isnil(s.spec.Security) && isnil(operation.Security) ==> isnil(result)
+//@   ensures !(isnil(s.spec.Security) && isnil(operation.Security)) ==> !isnil(result) && len(result) == len(effSec(s, operation))
+//@   ensures !(isnil(s.spec.Security) && isnil(operation.Security)) ==> forall i in 0..len(result) :: len(effSec(s, operation)[i]) == 0 ==> len(result[i]) == 1 && result[i][0].Name == "" && len(result[i][0].Scopes) == 0
+//@   ensures !(isnil(s.spec.Security) && isnil(operation.Security)) ==> forall i in 0..len(result) :: len(effSec(s, operation)[i]) > 0 ==> (forall k in dom(effSec(s, operation)[i]) :: hasReq(result[i], k)) && (forall j in 0..len(result[i]) :: result[i][j].Name in dom(effSec(s, operation)[i]) && !isnil(result[i][j].Scopes) && (if isnil(effSec(s, operation)[i][result[i][j].Name]) then len(result[i][j].Scopes) == 0 else result[i][j].Scopes == effSec(s, operation)[i][result[i][j].Name])) && len(result[i]) == cardInter(dom(effSec(s, operation)[i]), dom(effSec(s, operation)[i]))
+//@   loop 1: invariant !isnil(result) && len(result) == idx && schemes == effSec(s, operation)
+//@   loop 1: invariant forall i in 0..idx :: len(schemes[i]) == 0 ==> len(result[i]) == 1 && result[i][0].Name == "" && len(result[i][0].Scopes) == 0
+//@   loop 1: invariant forall i in 0..idx :: len(schemes[i]) > 0 ==> (forall k in dom(schemes[i]) :: hasReq(result[i], k)) && (forall j in 0..len(result[i]) :: result[i][j].Name in dom(schemes[i]) && !isnil(result[i][j].Scopes) && (if isnil(schemes[i][result[i][j].Name]) then len(result[i][j].Scopes) == 0 else result[i][j].Scopes == schemes[i][result[i][j].Name])) && len(result[i]) == cardInter(dom(schemes[i]), dom(schemes[i]))
+//@   loop 2: invariant forall k in seen :: k in dom(scheme) && hasReq(reqs, k)
+//@   loop 2: invariant forall j in 0..len(reqs) :: reqs[j].Name in seen && !isnil(reqs[j].Scopes) && (if isnil(scheme[reqs[j].Name]) then len(reqs[j].Scopes) == 0 else reqs[j].Scopes == scheme[reqs[j].Name])
+//@   loop 2: invariant len(reqs) == cardInter(seen, dom(scheme))
+
+//@ ofun namedIn(reqs []SecurityRequirement, n string) bool = exists i in 0..len(reqs) :: reqs[i].Name == n
+
+//@ func (s *Spec) SecurityDefinitionsForRequirements(requirements)
+//@   requires s != nil && s.spec != nil
+//@   modifies nothing
+//@   ensures result != nil && fresh(result)
+//@   ensures forall n string :: (n in dom(result)) <==> (namedIn(requirements, n) && n in dom(s.spec.SecurityDefinitions) && s.spec.SecurityDefinitions[n] != nil)
+//@   ensures forall n in dom(result) :: result[n] == *s.spec.SecurityDefinitions[n]
+//@   loop 1: modifies map result
+//@   loop 1: invariant result != nil && fresh(result)
+//@   loop 1: invariant forall n string :: (n in dom(result)) <==> ((exists i in 0..idx :: requirements[i].Name == n) && n in dom(s.spec.SecurityDefinitions) && s.spec.SecurityDefinitions[n] != nil)
+//@   loop 1: invariant forall n in dom(result) :: result[n] == *s.spec.SecurityDefinitions[n]
